@@ -129,8 +129,13 @@ class Tuple(ContainNestedFieldMixin, TypedField, metaclass=_CollectionMeta):
                 self._serialize = lambda value: [serialize(x) for x in value]
                 return self._serialize(value)
             elif isinstance(items, list):
-                self._serialize = lambda value: [
-                    items[i].serialize(x) for (i, x) in enumerate(value)
-                ]
+                if len(items) == 1:
+                    # Tuple[X]: any number of elements, all of them X
+                    serialize = items[0].serialize
+                    self._serialize = lambda value: [serialize(x) for x in value]
+                else:
+                    self._serialize = lambda value: [
+                        items[i].serialize(x) for (i, x) in enumerate(value)
+                    ]
                 return self._serialize(value)
         return value
